@@ -49,7 +49,7 @@ type SimLoader struct {
 	Off    bool // faults stopped
 	// Garbage is what an unparsable-content fault serves (must be invalid under the Set's delimiters)
 	Garbage string
-	OnCall func(c Call)
+	OnCall  func(c Call)
 }
 
 func NewSimLoader(inner jet.Loader) *SimLoader {
